@@ -55,7 +55,7 @@ ALL_EXACT = PLAIN + COMPOSITE + [["SolverReplacement", {}], ["SolverHybrid", {}]
 TRACKED = [["Solver", {"track": True}], ["SolverComposite", {"track": True}], ["SolverCacheless", {"track": True}]]
 
 SPECS = {
-    "C11": dict(jobs=jobs_C11, clauses=QUERY_CLAUSES | TRUTH_CLAUSES, level="model_checking"),
+    "C11": dict(jobs=jobs_C11, clauses=QUERY_CLAUSES | TRUTH_CLAUSES, level="model_checking", k1=True),
     "C12": dict(jobs=jobs_generic(COMPOSITE, "c12", 50, 500, W=2, alpha="xyz", multi=True),
                 clauses=QUERY_CLAUSES | TRUTH_CLAUSES | SPLIT_CLAUSES, level="model_checking"),
     "C13": dict(jobs=lambda tier, seed: jobs_generic(REPL_EXACT, "c13", 40, 400, n=10, with_bool=True)(tier, seed)
@@ -76,6 +76,114 @@ SPECS = {
 }
 
 
+# ----------------------------------------------------------------------------------------------
+# K1: TLC explores the refined cache model (spec/SolverCache.tla) and exports one history per reachable state
+# ----------------------------------------------------------------------------------------------
+
+def explore_cache(tier, seed, budget):
+    """returns (stats dict, list of histories to replay on the real claripy.Solver)"""
+    import random
+    import re
+    import shutil
+    import subprocess
+    import tempfile
+    from . import term as TM
+    from .w_solver import alphabet1
+    A = alphabet1(2)
+    # the denotations handed to TLC must be those of the terms handed to claripy
+    for t, d in list(zip(A["cons"], A["cden"])) + [(e[0], d) for e, d in zip(A["extras"], A["eden"]) if e]:
+        got = [v for v in range(4) if TM.z3_eval(t, {"x": v}) == 1]
+        if got != d:
+            raise C.MachineryError(f"alphabet denotation mismatch for {t}: {got} != {d}")
+    d = tempfile.mkdtemp(prefix="k1-", dir=C.scratch())
+    shutil.copy(os.path.join(C.SPEC, "SolverCache.tla"), d)
+    depth = 4 if tier == "quick" else 5
+    fmt = lambda ds: "<<" + ",".join("{" + ",".join(map(str, x)) + "}" for x in ds) + ">>"  # noqa: E731
+    with open(os.path.join(d, "MC.tla"), "w") as f:
+        f.write("---- MODULE MC ----\nEXTENDS SolverCache\n"
+                f"MC_CDen == {fmt(A['cden'])}\nMC_EDen == {fmt(A['eden'])}\n====\n")
+    with open(os.path.join(d, "MC.cfg"), "w") as f:
+        f.write(f"CONSTANTS\n W = 2\n CDen <- MC_CDen\n EDen <- MC_EDen\n NVals = {{1,2,5}}\n NS = 2\n MaxDepth = {depth}\n"
+                "SPECIFICATION Spec\nCONSTRAINT Depth\nVIEW view\nPROPERTY AnswerStep\nINVARIANT CacheSound\n"
+                "INVARIANT SatcSound\nINVARIANT EvalExhSound\nINVARIANT OptExhSound\nCHECK_DEADLOCK FALSE\n")
+    cmd = ["java", "-XX:+UseParallelGC", "-Xmx8g", "-cp", C.TLA_CP, "tlc2.TLC", "-workers", "8", "-noGenerateSpecTE",
+           "-metadir", os.path.join(d, "md"), "-config", "MC.cfg", "-dump", os.path.join(d, "states"), "-coverage", "1",
+           "MC.tla"]
+    p = subprocess.run(cmd, cwd=d, capture_output=True, text=True, timeout=1500)
+    out = p.stdout + p.stderr
+    st = C.tlc_stats(out)
+    if st is None:
+        raise C.MachineryError("SolverCache exploration failed:\n" + out[-3000:])
+    stats = {"states": st["distinct"], "transitions": st["generated"], "depth": depth,
+             "model_violation": None}
+    hists = []
+    cex = None
+    if "is violated" in out:
+        # the refined model itself admits a wrong answer: keep TLC's counterexample and replay it first
+        hs = re.findall(r"hist = (<<.*>>)", out)
+        cex = hs[-1] if hs else None
+        stats["model_violation"] = re.findall(r"Error: (.* is violated.*)", out)[:1]
+    # actions never taken = vacuity
+    for act in ("Add", "Satisfiable", "Eval", "Optimum", "Solution", "Branch"):
+        m = re.search(r"<%s line \d+, col \d+ to line \d+, col \d+ of module SolverCache>: (\d+):(\d+)" % act, out)
+        if m and int(m.group(2)) == 0 and not stats["model_violation"]:
+            raise C.MachineryError(f"vacuity: action {act} of SolverCache was never taken")
+    tup = re.compile(r"<<(\d+), (\d+), (\d+), (\d+)>>")
+    dump = os.path.join(d, "states.dump")
+    raw = []
+    if os.path.exists(dump):
+        with open(dump) as f:
+            for line in f:
+                if line.startswith("/\\ hist = "):
+                    raw.append([tuple(map(int, t)) for t in tup.findall(line)])
+    if cex:
+        raw.insert(0, [tuple(map(int, t)) for t in tup.findall(cex)])
+    shutil.rmtree(d, ignore_errors=True)
+
+    def to_ops(h):
+        ops = [["new", "Solver", {}]]
+        for op, s_, a, b in h:
+            s0 = s_ - 1
+            if op == 1:
+                ops.append(["add", s0, [A["cons"][a - 1]]])
+            elif op == 2:
+                ops.append(["satisfiable", s0, A["extras"][a - 1]])
+            elif op == 3:
+                ops.append(["eval", s0, A["exprs"][0], a, A["extras"][b - 1]])
+            elif op in (4, 5):
+                ops.append(["min" if op == 4 else "max", s0, A["exprs"][0], bool(a), A["extras"][b - 1]])
+            elif op == 6:
+                ops.append(["solution", s0, A["exprs"][0], TM.BVV(a, 2), A["extras"][b - 1], True])
+            elif op == 7:
+                ops.append(["branch", s0])
+        return ops
+
+    # every reachable refined state extended by every input = one replay per transition of the state graph
+    inputs = [(1, c, 0) for c in range(1, len(A["cons"]) + 1)] + [(2, e, 0) for e in range(1, 5)] + \
+             [(3, n, e) for n in (1, 2, 5) for e in range(1, 5)] + \
+             [(o, sg, e) for o in (4, 5) for sg in (0, 1) for e in range(1, 5)] + \
+             [(6, v, e) for v in range(4) for e in range(1, 5)] + [(7, 0, 0)]
+    rng = random.Random(seed)
+    allh = []
+    for h in raw:
+        nlive = 1 + sum(1 for t in h if t[0] == 7)
+        for (o, a, b) in inputs:
+            for s_ in range(1, nlive + 1):
+                if o == 7 and nlive >= 2:
+                    continue
+                allh.append(h + [(o, s_, a if o != 7 else nlive + 1, b)])
+    stats["state_histories"] = len(raw)
+    stats["transition_histories"] = len(allh)
+    if len(allh) > budget:
+        pick = rng.sample(range(len(allh)), budget)
+        allh = [allh[i] for i in sorted(pick)]
+    if cex:
+        allh.insert(0, [tuple(map(int, t)) for t in tup.findall(cex)])
+    stats["replayed"] = len(allh)
+    hists = [to_ops(h) for h in allh]
+    return stats, hists
+
+
 def describe(ev):
     """short rendering of an event for replay files / finding predicates"""
     return {k: ev[k] for k in ("call", "s", "e", "es", "n", "v", "signed", "extra", "cs", "others", "ret", "rets",
@@ -87,6 +195,16 @@ def check(pid, tier, regen=False):
     spec = SPECS[pid]
     R = C.Result(pid, spec["level"], tier)
     jobs = spec["jobs"](tier, seed)
+    k1 = None
+    if spec.get("k1"):
+        k1, hists = explore_cache(tier, seed, 2400 if tier == "quick" else 60000)
+        n = 16
+        for k in range(n):
+            part = hists[k::n]
+            if part:
+                reuse = "1" if k % 4 == 3 else "0"
+                jobs.append({"mode": "list", "W": 2, "alpha": "x1", "histories": part, "probe": True,
+                             "tag": f"k1-r{reuse}", "env": {"REUSE_Z3_SOLVER": reuse}})
     bad, stats = C.pipeline("w_solver", jobs, "TraceSolver.tla")
     st = C.merge_stats(stats)
     mine = spec["clauses"]
@@ -119,28 +237,35 @@ def check(pid, tier, regen=False):
                        "recorded traces (one step per public call); exploration statistics of the refined spec are "
                        "listed under 'exploration' when the K1 export is part of the tier",
     }
+    if k1:
+        R.coverage["exploration"] = k1
+        R.coverage["states"] = k1["states"]
+        R.coverage["transitions"] = k1["transitions"]
+        R.coverage["explanation"] = ("states/transitions: TLC exploration of the refined cache model spec/SolverCache.tla "
+                                     "(AnswerStep refinement property + cache invariants) to depth %d; one history per "
+                                     "reachable refined state extended by every input was exported, %d of %d replayed on "
+                                     "the real Solver and validated against SolverAbs together with the random histories"
+                                     % (k1["depth"], k1["replayed"], k1["transition_histories"]))
+        if k1["model_violation"]:
+            R.notes.append("SPEC-DRIFT: refined model violates %s (counterexample replayed on the code)" % k1["model_violation"])
     R.assumptions = ["Z3 is correct", "variables of width <= 3: models enumerated exhaustively by TLC",
                      "reference state computed from logged inputs only"]
     return R.finish()
 
 
 def _pred_composite_unsat_flag(tr, k, clause):
-    """a SolverComposite received a concretely false constraint (only recorded in its private _unsat flag) and a
-    combine / merge / split happened before the failing step"""
+    """SolverComposite keeps the fact "unsatisfiable" outside its children (the private _unsat flag for a concretely
+    false constraint; a variable-free child holding False after simplification) and combine() / merge() / split()
+    do not carry it over: a result whose reference model set is empty answers as if it were satisfiable"""
     evs = tr["ev"][:k]
     ev = evs[-1]
     if ev.get("cls") not in ("SolverComposite", "SolverCompositeChild"):
         return False
-    return any(e["call"] == "add" and e.get("cfalse") for e in evs) and \
-        any(e["call"] in ("combine", "merge", "split") for e in evs)
-
-
-def _pred_replacement_concrete_on_unsat(tr, k, clause):
-    """SolverReplacement / SolverHybrid answer a query whose expression becomes concrete under the installed
-    replacements without consulting the constraints, also when those are unsatisfiable"""
-    ev = tr["ev"][k - 1]
-    return ev.get("cls", "").startswith("SolverReplacement") and \
-        clause in ("answer-on-unsat", "eval-on-unsat", "solution-on-unsat")
+    if not any(e["call"] in ("combine", "merge", "split") for e in evs):
+        return False
+    if clause in ("answer-on-unsat", "eval-on-unsat", "solution-on-unsat", "split-models"):
+        return True
+    return clause == "satisfiable" and ev["ret"] == [[[1]]]
 
 
 def _pred_composite_stale_child(tr, k, clause):
@@ -166,6 +291,14 @@ def _pred_core_empty_on_concrete_false(tr, k, clause):
     ev = evs[-1]
     return ev["call"] == "unsat_core" and clause == "core-satisfiable" and len(ev["rets"]) == 0 and \
         any(e["call"] == "add" and e.get("cfalse") and e["s"] == ev["s"] for e in evs)
+
+
+def _pred_replacement_concrete_on_unsat(tr, k, clause):
+    """SolverReplacement answers a query whose expression becomes concrete under the installed replacements
+    without consulting the constraints, also when those are unsatisfiable"""
+    ev = tr["ev"][k - 1]
+    return ev.get("cls", "").startswith("SolverReplacement") and \
+        clause in ("answer-on-unsat", "eval-on-unsat", "solution-on-unsat")
 
 
 PREDICATES = {"composite-unsat-flag": _pred_composite_unsat_flag,
